@@ -90,7 +90,74 @@ var headerLists = func() [][]hpack.HeaderField {
 	}
 }()
 
+// genPressure: several streams of one sender fill the receiver's connection window, the receiver then grants small
+// amounts on the connection (and now and then on a stream): data of more than one stream is queued behind the same
+// connection-level budget when each grant arrives.
+func genPressure(t *rapid.T, c *H2Case) {
+	sender := rapid.SampledFrom([]string{"A", "B"}).Draw(t, "psender")
+	receiver := map[string]string{"A": "B", "B": "A"}[sender]
+	n := rapid.IntRange(6, 30).Draw(t, "npsteps")
+	for i := 0; i < n; i++ {
+		s := Step{Side: sender, Stream: rapid.IntRange(0, c.Streams-1).Draw(t, "pstream"), Pad: -1, InitWin: -1, MaxFrame: -1, TableSz: -1}
+		switch k := rapid.IntRange(0, 9).Draw(t, "pop"); {
+		case k < 6:
+			s.Op = "data"
+			s.Len = rapid.SampledFrom([]int{16384, 16383, 30000, 8000, 16384}).Draw(t, "plen")
+		case k < 8:
+			s.Op, s.Side, s.Stream = "wupdate", receiver, -1
+			s.Inc = rapid.SampledFrom([]int{1, 100, 1000, 5000, 16384}).Draw(t, "pinc")
+		case k == 8:
+			s.Op, s.Side = "wupdate", receiver
+			s.Inc = rapid.SampledFrom([]int{1000, 16384, 65535}).Draw(t, "psinc")
+		default:
+			s.Op = "sync"
+		}
+		c.Steps = append(c.Steps, s)
+	}
+}
+
+// genEarlyGrant: the receiver grants window on a stream (and on the connection) before the relay has forwarded anything
+// on that stream towards it - what clients do that raise a stream's window right after opening it - and the body then
+// exceeds the initial window. Ordinary steps follow.
+func genEarlyGrant(t *rapid.T, c *H2Case) {
+	sender := rapid.SampledFrom([]string{"B", "A"}).Draw(t, "esender")
+	receiver := map[string]string{"A": "B", "B": "A"}[sender]
+	k := rapid.IntRange(0, c.Streams-1).Draw(t, "estream")
+	base := Step{Pad: -1, InitWin: -1, MaxFrame: -1, TableSz: -1}
+	add := func(s Step) { c.Steps = append(c.Steps, s) }
+	if sender == "B" { // a response needs its request first
+		rq := base
+		rq.Op, rq.Side, rq.Stream, rq.Hdr = "headers", "A", k, 0
+		add(rq)
+	}
+	g := base
+	g.Op, g.Side, g.Stream, g.Inc = "wupdate", receiver, k, rapid.SampledFrom([]int{100000, 200000, 1 << 20}).Draw(t, "egrant")
+	add(g)
+	if rapid.Bool().Draw(t, "econn") {
+		gc := g
+		gc.Stream = -1
+		add(gc)
+	}
+	h := base
+	h.Op, h.Side, h.Stream, h.Hdr = "headers", sender, k, 1
+	add(h)
+	n := rapid.IntRange(2, 6).Draw(t, "edata")
+	for i := 0; i < n; i++ {
+		d := base
+		d.Op, d.Side, d.Stream, d.Len = "data", sender, k, rapid.SampledFrom([]int{16384, 16000, 9000}).Draw(t, "elen")
+		d.End = i == n-1 && rapid.Bool().Draw(t, "eend")
+		add(d)
+	}
+}
+
 func genSteps(t *rapid.T, c *H2Case, flow bool) {
+	if flow && c.Streams >= 2 && rapid.IntRange(0, 3).Draw(t, "pressure") == 0 {
+		genPressure(t, c)
+		return
+	}
+	if rapid.IntRange(0, 4).Draw(t, "earlygrant") == 0 {
+		genEarlyGrant(t, c)
+	}
 	n := rapid.IntRange(3, 40).Draw(t, "nsteps")
 	sizes := []int{0, 1, 100, 1000, 16383, 16384, 16385, 30000, 65535}
 	for i := 0; i < n; i++ {
@@ -258,6 +325,7 @@ type endpoint struct {
 	recvConn  int
 	grant     map[uint32]int
 	grantConn int
+	initLo    int // lower bound: the smallest initial window this endpoint ever announced
 	initHi    int // upper bound of the initial window in force at the relay
 	initNew   int // value that becomes the strict bound when the barrier marker arrives
 	maxFrameHi  int
@@ -286,7 +354,7 @@ type endpoint struct {
 
 func newEndpoint(name string, conn net.Conn) *endpoint {
 	e := &endpoint{name: name, conn: conn, fr: http2.NewFramer(conn, conn), recv: map[uint32]*streamLog{}, recvFlow: map[uint32]int{}, grant: map[uint32]int{},
-		initHi: 65535, initNew: -1, maxFrameHi: 16384, maxFrameNew: -1, tableAnn: 4096, tableLower: -1, sendWin: map[uint32]int{}, sendConn: 65535, peerInit: 65535, peerMaxFrm: 16384,
+		initLo: 65535, initHi: 65535, initNew: -1, maxFrameHi: 16384, maxFrameNew: -1, tableAnn: 4096, tableLower: -1, sendWin: map[uint32]int{}, sendConn: 65535, peerInit: 65535, peerMaxFrm: 16384,
 		credit: map[uint32]int{}, sentFlow: map[uint32]int{}}
 	e.cond = sync.NewCond(&e.mu)
 	e.enc = hpack.NewEncoder(&e.encB)
@@ -646,6 +714,9 @@ func (r *h2run) sendSettings(side string, initWin, maxFrame, tableSz int) bool {
 	needBarrier := false
 	if initWin >= 0 {
 		ss = append(ss, http2.Setting{ID: http2.SettingInitialWindowSize, Val: uint32(initWin)})
+		if initWin < self.initLo {
+			self.initLo = initWin
+		}
 		if initWin >= self.initHi {
 			self.initHi = initWin
 		} else {
@@ -978,6 +1049,10 @@ func runH2(c H2Case, checkC10 bool) (fails []vstat.Failure) {
 		r.a.fr.WriteGoAway(7, http2.ErrCodeNo, []byte("bye"))
 		r.a.wmu.Unlock()
 	}
+	// before any further window is opened: what the windows granted so far permit must have been delivered
+	if ok && checkC10 {
+		r.deliveredUnderGrantedWindows()
+	}
 	// open all windows wide and wait until everything sent has arrived
 	if ok {
 		for _, e := range []*endpoint{r.a, r.b} {
@@ -1057,6 +1132,78 @@ func runH2(c H2Case, checkC10 bool) (fails []vstat.Failure) {
 		e.mu.Unlock()
 	}
 	return r.fails
+}
+
+// deliveredUnderGrantedWindows: "whenever the receiver's windows permit, every queued frame is eventually delivered".
+// Once the connection has gone quiet, a stream on which the sender has sent more DATA than the receiver has got must be
+// short of window: if the receiver's stream window and connection window (by its own ledger, initial window taken at the
+// smallest value it ever announced) both still hold a full frame, the relay is sitting on a frame it may send.
+func (r *h2run) deliveredUnderGrantedWindows() {
+	for _, d := range []struct {
+		name string
+		recv *endpoint
+		s    *sent
+		back *sent
+	}{{"A->B", r.b, &r.sa, &r.sb}, {"B->A", r.a, &r.sb, &r.sa}} {
+		dataOf := func(l *streamLog) (n int, reset bool) {
+			if l == nil {
+				return 0, false
+			}
+			for _, e := range l.elems {
+				if e.Kind == "D" {
+					n += e.N
+				}
+				if e.Kind == "RST" {
+					reset = true
+				}
+			}
+			return
+		}
+		// only if something is outstanding: wait until the connection has gone quiet (no frame for 25 ms, bounded)
+		pending := func() bool {
+			d.recv.mu.Lock()
+			defer d.recv.mu.Unlock()
+			for id, l := range d.s.logs {
+				a, _ := dataOf(l)
+				b, _ := dataOf(d.recv.recv[id])
+				if a > b {
+					return true
+				}
+			}
+			return false
+		}
+		last, since := -1, time.Now()
+		for t0 := time.Now(); pending() && time.Since(t0) < stepBound; time.Sleep(2 * time.Millisecond) {
+			d.recv.mu.Lock()
+			n := d.recv.frames
+			d.recv.mu.Unlock()
+			if n != last {
+				last, since = n, time.Now()
+			} else if time.Since(since) > 25*time.Millisecond {
+				break
+			}
+		}
+		d.recv.mu.Lock()
+		for id, l := range d.s.logs {
+			sentN, rst1 := dataOf(l)
+			gotN, rst2 := dataOf(d.recv.recv[id])
+			_, rst3 := dataOf(d.back.logs[id])
+			if rst1 || rst2 || rst3 || sentN <= gotN {
+				continue
+			}
+			availStream := d.recv.initLo + d.recv.grant[id] - d.recv.recvFlow[id]
+			availConn := 65535 + d.recv.grantConn - d.recv.recvConn
+			if availStream >= d.recv.maxFrameHi && availConn >= d.recv.maxFrameHi {
+				key := "C10:stranded:windows-permit"
+				if r.contPush && d.name == "B->A" {
+					key = keyPushCont // the known finding: a continued PUSH_PROMISE ends this direction
+				}
+				r.fails = append(r.fails, vstat.Failf(key, "direction %s stream %d: %d of %d DATA octets delivered and nothing more arrives, although %s still has %d octets of stream window and %d of connection window (a frame holds at most %d)",
+					d.name, id, gotN, sentN, d.recv.name, availStream, availConn, d.recv.maxFrameHi))
+			}
+		}
+		d.recv.mu.Unlock()
+	}
 }
 
 func sameLog(want, got *streamLog) bool {
